@@ -4,7 +4,7 @@ use crate::rig_l::*;
 use serde_json::{json, Value};
 use tokio::sim::Rng;
 
-fn swarm_cfg(rng: &mut Rng, tier: Tier, allow_faults: bool) -> LCfg {
+fn swarm_cfg(rng: &mut Rng, tier: Tier, allow_faults: bool, allow_short_write: bool) -> LCfg {
     let mut cfg = LCfg::default();
     // index interval knob: small intervals make index-boundary logic reachable in tens of records
     let r = rng.below(100);
@@ -18,7 +18,10 @@ fn swarm_cfg(rng: &mut Rng, tier: Tier, allow_faults: bool) -> LCfg {
     if rng.chance(0.3) {
         cfg.p_yield = 0.2;
     }
-    if rng.chance(0.3) {
+    // a short write splits one write_all into two write calls: legal for AsyncWrite, but tokio::fs
+    // never does it below 2 MiB, and a kill between the two calls would be a torn write, which is
+    // outside the crash model - so only checks without kills use it
+    if rng.chance(0.3) && allow_short_write {
         cfg.p_short_write = 0.1;
     }
     // short reads of a regular file are not injected here: tokio::fs returns full counts below
@@ -84,7 +87,7 @@ impl Check for C02 {
     }
     fn generate(&self, seed: u64, tier: Tier) -> Value {
         let mut rng = Rng::derive(seed, "C02.gen", 0);
-        let cfg = swarm_cfg(&mut rng, tier, true);
+        let cfg = swarm_cfg(&mut rng, tier, true, true);
         let mut sh = shadow(&cfg);
         let mut hits = 0u64;
         let hi = if rng.chance(0.2) { 120 } else { 40 };
@@ -220,4 +223,159 @@ pub fn shrink_lcfg(cfg: &Value) -> Vec<Value> {
         out.push(d);
     }
     out.into_iter().map(|c| serde_json::to_value(c).unwrap()).collect()
+}
+
+// ---------------------------------------------------------------------------
+// C03: truncation removes exactly the suffix; the log stays appendable
+
+pub struct C03;
+impl Check for C03 {
+    fn id(&self) -> &'static str {
+        "C03"
+    }
+    fn generate(&self, seed: u64, tier: Tier) -> Value {
+        let mut rng = Rng::derive(seed, "C03.gen", 0);
+        let mut cfg = swarm_cfg(&mut rng, tier, false, true);
+        // shapes with several files need the small geometry more often
+        if rng.chance(0.5) {
+            cfg.interval = *rng.pick(&[2u16, 3, 8]);
+            cfg.area = *rng.pick(&[48u16, 56, 64, 80]);
+        }
+        let mut sh = shadow(&cfg);
+        let mut hits = 0u64;
+        let mut steps = vec![];
+        let interval = if cfg.interval == 0 { 128 } else { cfg.interval as u64 };
+        // phase 1: build a shape
+        let fill = if cfg.interval == 0 { rng.range(1, 3) * 70 } else { rng.range(3, 60) };
+        let mut left = fill;
+        while left > 0 {
+            let n = rng.range(1, left.min(30));
+            if rng.chance(0.5) {
+                steps.push(gen_replicate(&mut rng, &mut sh, &mut hits, n));
+            } else {
+                for _ in 0..n.min(6) {
+                    steps.push(gen_append(&mut rng, &mut sh, &mut hits));
+                }
+            }
+            left = left.saturating_sub(n);
+            let r = rng.below(100);
+            if r < 8 {
+                steps.push(LStep::Compact { back: rng.range(0, 10) });
+            } else if r < 11 {
+                steps.push(LStep::InstallPointer { rel: rng.range(0, 12) as i64 - 8 });
+            } else if r < 16 {
+                steps.push(LStep::Reopen);
+            }
+        }
+        // phase 2/3: cut, re-append shorter / equal / longer, optional reopen; a few rounds
+        let rounds = rng.range(1, 4);
+        for _ in 0..rounds {
+            let r = rng.below(100);
+            let back = if r < 35 {
+                rng.range(1, 4)
+            } else if r < 70 {
+                // around index-entry boundaries: multiples of the interval +-1
+                let m = rng.range(1, 4) * interval;
+                (m as i64 + *rng.pick(&[-1i64, 0, 0, 1])).max(1) as u64
+            } else if r < 90 {
+                rng.range(1, fill.max(2))
+            } else {
+                0
+            };
+            sh.known = false;
+            steps.push(LStep::DeleteFrom { back });
+            if rng.chance(0.25) {
+                steps.push(LStep::Reopen);
+            }
+            let n = rng.range(0, 8);
+            let style = rng.below(3);
+            for _ in 0..n {
+                let pad = match style {
+                    0 => 0,
+                    1 => rng.range(50, 80) as usize,
+                    _ => *rng.pick(&[300usize, 1000, 2048, 16300]),
+                };
+                steps.push(LStep::Append { pad, kind: 0, term_up: rng.chance(0.3) });
+            }
+            if rng.chance(0.6) {
+                steps.push(LStep::Reopen);
+            }
+        }
+        steps.push(LStep::Append { pad: 1, kind: 0, term_up: false });
+        steps.push(LStep::Reopen);
+        json!({"check": "C03", "seed": seed, "cfg": cfg, "steps": steps})
+    }
+    fn execute(&self, script: Value) -> LocalFut<ExecResult> {
+        Box::pin(exec_lscript("C03", script))
+    }
+    fn shrink_step(&self, step: &Value) -> Vec<Value> {
+        shrink_lstep(step)
+    }
+    fn shrink_cfg(&self, cfg: &Value) -> Vec<Value> {
+        shrink_lcfg(cfg)
+    }
+}
+
+// ---------------------------------------------------------------------------
+// C05: vote, term, membership and addresses are durable and never regress
+
+pub struct C05;
+impl Check for C05 {
+    fn id(&self) -> &'static str {
+        "C05"
+    }
+    fn generate(&self, seed: u64, tier: Tier) -> Value {
+        let mut rng = Rng::derive(seed, "C05.gen", 0);
+        let mut cfg = swarm_cfg(&mut rng, tier, false, false);
+        if rng.chance(0.6) {
+            cfg.p_delay = *rng.pick(&[0.2, 0.5, 0.9]);
+            cfg.max_delay_us = *rng.pick(&[2_000u64, 50_000, 300_000]);
+        }
+        let mut sh = shadow(&cfg);
+        let mut hits = 0u64;
+        let n = rng.range(4, 40);
+        let mut steps = vec![];
+        let mut long_addr = false;
+        for _ in 0..n {
+            let r = rng.below(100);
+            let st = if r < 30 {
+                LStep::HardState { term_up: rng.range(0, 2), vote: rng.range(0, 5) }
+            } else if r < 42 {
+                let k = rng.range(1, 5);
+                // alternate long / short records so that a shorter catalogue follows a longer one in place
+                long_addr = !long_addr;
+                LStep::Member { members: (1..=k).collect(), after: if rng.chance(0.3) { (1..=k + 1).collect() } else { vec![] }, addr_len: if long_addr { rng.range(30, 120) as usize } else { 1 } }
+            } else if r < 52 {
+                long_addr = !long_addr;
+                LStep::NodeAddr { id: rng.range(1, 5), addr_len: if long_addr { rng.range(30, 120) as usize } else { 1 } }
+            } else if r < 64 {
+                // other writers of the same file: roll-over (SaveLogs), compaction (SaveSnapshots), applied index
+                gen_replicate(&mut rng, &mut sh, &mut hits, 12)
+            } else if r < 70 {
+                LStep::Compact { back: rng.range(0, 3) }
+            } else if r < 76 {
+                LStep::SaveApplied { back: rng.range(0, 3) }
+            } else if r < 80 {
+                LStep::DeleteFrom { back: rng.range(1, 5) }
+            } else if r < 84 {
+                LStep::Advance { ms: *rng.pick(&[1u64, 100, 600]) }
+            } else if r < 93 {
+                LStep::Reopen
+            } else {
+                LStep::CrashNow
+            };
+            steps.push(st);
+        }
+        steps.push(LStep::Reopen);
+        json!({"check": "C05", "seed": seed, "cfg": cfg, "steps": steps})
+    }
+    fn execute(&self, script: Value) -> LocalFut<ExecResult> {
+        Box::pin(exec_lscript("C05", script))
+    }
+    fn shrink_step(&self, step: &Value) -> Vec<Value> {
+        shrink_lstep(step)
+    }
+    fn shrink_cfg(&self, cfg: &Value) -> Vec<Value> {
+        shrink_lcfg(cfg)
+    }
 }
